@@ -42,6 +42,7 @@ import enum
 import io
 import json
 import itertools
+import re
 import urllib.parse
 
 from lxml import etree
@@ -209,7 +210,8 @@ def message_to_xml(message: Message) -> etree._Element:
     message_type_elem = etree.Element("messageType")
     message_type_elem.text = str(message.message_type)
     text_elem = etree.Element("text")
-    text_elem.text = message.text
+    # the text may echo client input (e.g. a decoded identifier); lxml refuses characters that are not allowed in XML
+    text_elem.text = re.sub("[^\t\n\r\x20-\ud7ff\ue000-\ufffd\U00010000-\U0010ffff]", "\ufffd", message.text)
     code_elem = etree.Element("code")
     code_elem.text = message.code
     timestamp_elem = etree.Element("timestamp")
